@@ -140,7 +140,7 @@ def run(rep: common.Report, tier: str, seed: int, replay=None) -> int:
                ("m", "mT", "uA")]     # SI lengths: coordinates of order 1e-6
     B_T, I_A = 0.4e-3, 2.0e-6
     for screening, ramp in ((False, False), (True, False), (False, True)):
-        frames, phys, failed, fields = {}, {}, {}, {}
+        frames, phys, failed, fields, grids = {}, {}, {}, {}, {}
         P_um = np.array([[0.7, -0.4, 0.8], [-1.5, 0.9, 1.5], [2.1, 0.2, -0.6], [0.0, 0.0, 2.0]])
         with tempfile.TemporaryDirectory(prefix="pyt_c08_") as td:
             opts, kept = None, []
@@ -176,6 +176,14 @@ def run(rep: common.Report, tier: str, seed: int, replay=None) -> int:
                 Ad = sol.vector_potential_at_position(Pphys, units="T * m", return_sum=False, with_units=False)
                 Af = sum(np.asarray(v) for k_, v in Ad.items() if k_ != "applied")
                 fields[key_] = (Bf, Af)
+                # the gridded / interpolated current densities (public post-processing API), asked for in SI with the default
+                # with_units=False, on the same relative grid / at the same physical points
+                try:
+                    gx_, gy_, gJ_ = sol.grid_current_density(grid_shape=(14, 11), units="A / m", with_units=False)
+                    iJ_ = sol.interp_current_density(Pphys[:, :2], units="A / m", with_units=False)
+                    grids[key_] = (np.asarray(gJ_, dtype=float), np.asarray(iJ_, dtype=float))
+                except Exception as e:  # noqa: BLE001
+                    grids[key_] = f"{type(e).__name__}: {e}"[:160]
                 Atot = np.asarray(sol.vector_potential_at_position(Pphys, units="T * m", return_sum=True, with_units=False))
                 kept.append((key_, sol, Pphys, K, Bf, Atot))
             for key_, sol_, Pp_, K_, Bf_, At_ in kept:
@@ -223,6 +231,16 @@ def run(rep: common.Report, tier: str, seed: int, replay=None) -> int:
                                     ("vector potential of the film currents (T m)", fields[lu][1], fields["um"][1])):
                     if np.max(np.abs(a_ - b_)) > 100 * tol * (np.max(np.abs(b_)) + 1e-300):
                         rep.violation(f"the {nm_} computed from the solution at fixed physical points depends on the unit system", case)
+                ga, gb = grids.get(lu), grids.get("um")
+                if isinstance(ga, str) or isinstance(gb, str):
+                    if isinstance(ga, str) != isinstance(gb, str):
+                        rep.violation("grid / interp_current_density works in one unit system and fails in another", {**case, "error": ga if isinstance(ga, str) else gb})
+                elif ga is not None and gb is not None:
+                    for nm_, a_, b_ in (("grid_current_density", ga[0], gb[0]), ("interp_current_density", ga[1], gb[1])):
+                        okm = np.isfinite(a_) & np.isfinite(b_)
+                        if a_.shape != b_.shape or not np.array_equal(np.isfinite(a_), np.isfinite(b_)) or \
+                                np.max(np.abs(a_[okm] - b_[okm])) > 1e-5 * (np.max(np.abs(b_[okm])) + 1e-300):
+                            rep.violation(f"Solution.{nm_}(units='A / m') depends on the unit system the problem was stated in", case)
                 rep.count(len(ref))
                 rep.nontrivial(("runs", lu, screening))
         rep.sample({"systems": systems, "screening": screening, "frames": len(ref), "B_tesla": B_T, "I_amp": I_A})
